@@ -270,6 +270,8 @@ pub fn ser_real(f: &SymbolicBDD) -> String {
     }
 }
 
+pub fn cnt_name_pub(op: CountableOperator) -> &'static str { cnt_name(op) }
+pub fn bin_name_pub(op: BinaryOperator) -> &'static str { bin_name(op) }
 fn cnt_name(op: CountableOperator) -> &'static str {
     match op {
         CountableOperator::AtMost => "le",
